@@ -78,6 +78,9 @@ func step(c *Chain, h *histWriter, o Op, mon *Monitors) string {
 	if o.Tk.Forge != 0 {
 		enc += fmt.Sprintf(" #f=%d", o.Tk.Forge)
 	}
+	if o.Tk2.Forge != 0 {
+		enc += fmt.Sprintf(" #f2=%d", o.Tk2.Forge)
+	}
 	h.line("OP " + enc)
 	short := res
 	if strings.HasPrefix(res, "panic") {
@@ -185,8 +188,12 @@ func replayFile(in, out string) {
 	h := newHistWriter(out)
 	defer h.close()
 	mon := NewMonitors()
+	var lines []string
 	for sc.Scan() {
-		l := sc.Text()
+		lines = append(lines, sc.Text())
+	}
+	simulate := os.Getenv("VERIF_SIMULATE") == "1"
+	for k, l := range lines {
 		switch {
 		case strings.HasPrefix(l, "GEN "):
 			cfg := ParseGenLine(l)
@@ -200,8 +207,38 @@ func replayFile(in, out string) {
 			if c == nil {
 				panic("OP before GEN")
 			}
-			step(c, h, ParseOp(l[3:]), mon)
+			o := ParseOp(l[3:])
+			if simulate && o.Kind != "BEGIN" && o.Kind != "END" && !c.Halted && c.Height >= 2 {
+				simulateAhead(c, lines[k+1:], 3)
+			}
+			step(c, h, o, mon)
 		}
+	}
+}
+
+// simulateAhead simulates (never delivers) the next n transactions of the history, as a node does for transactions
+// waiting in its mempool.  A deterministic state machine computes the same blocks with or without it.
+func simulateAhead(c *Chain, rest []string, n int) {
+	saved := c.rng
+	c.rng = rand.New(rand.NewSource(7))
+	c.SimOnly = true
+	defer func() { c.SimOnly = false; c.rng = saved; c.LastTx = nil }()
+	for _, l := range rest {
+		if n == 0 {
+			return
+		}
+		if !strings.HasPrefix(l, "OP ") {
+			continue
+		}
+		o := ParseOp(l[3:])
+		if o.Kind == "BEGIN" || o.Kind == "END" {
+			continue
+		}
+		func() {
+			defer func() { _ = recover() }()
+			c.Exec(o)
+		}()
+		n--
 	}
 }
 
